@@ -23,10 +23,12 @@ def main():
         import regen as regen_mod
         parts = getattr(mod, "REGEN", ("constants", "registry"))
         proofs.build_and_audit(ctx, lambda c: regen_mod.regen(c, parts))
-        if a.replay:
+        import corpus
+        corpus.run(ctx)                     # minimised witnesses of every recorded finding run first
+        if a.replay and hasattr(mod, "replay"):
             mod.replay(ctx, a.replay)
         else:
-            mod.run(ctx)
+            mod.run(ctx)                    # (a replay re-runs the property's module with the recorded seed)
         rc = ctx.finish()
     except common.InfraError as e:
         print(f"{a.prop}: INFRASTRUCTURE FAILURE: {e}")
